@@ -584,3 +584,19 @@ m('M47b', 'C20', 'C20.no-allocation-reachable', 'future.h',
         auto m = claim();""", """    suspend_point<bool> set_value(DropTag) {
         std::string __why("dropped"); (void)__why.append(40, 'x');
         auto m = claim();""", 'string in drop')
+m('M05e', 'C01', 'C01.state-tag-agrees', 'future.h',
+  """        new (&_exception) std::exception_ptr(std::move(e));
+        _state = State::exception;""", """        new (&_exception) std::exception_ptr(std::move(e));
+        _state = State::value;""", 'exception stored under the value tag')
+m('M30f', 'C11', 'C11.run-resolves-once', 'thread_pool.h',
+  """                } catch(...) {
+                    promise(std::current_exception());
+                }""", """                } catch(...) {
+                }""", 'run(fn) swallows the exception')
+m('M31h', 'C12', 'C12.destructor-stops-worker', 'scheduler.h',
+  """            _glob_state->_stp.request_stop();
+            _glob_state->_fut.wait();""", """            _glob_state->_stp.request_stop();""", 'destructor does not wait for the worker')
+m('M40f', 'C16', 'C16.end-of-stream', 'publisher.h',
+  "            if (l._kicked || l._pos == _pos) return {};", "            if (l._pos == _pos) return {};", 'kicked subscriber keeps reading')
+m('M45g', 'C19', 'C19.buffer-large-enough', 'coro_storage.h',
+  "        if (_buff.size() < items) _buff.resize(items);", "        if (_buff.size() > items) _buff.resize(items);", 'buffer shrunk instead of grown')
